@@ -336,6 +336,18 @@ func rulePair(w *World, r *Report, pkg *ssa.Package, tag string) {
 		r.Bad(rule, fnName(fn)+":literals", w.Pos(fn.Pos()), fmt.Sprintf("only %d JSON Patch op literals found", len(lits)))
 		return
 	}
+	wp := pkg.Func("writePointer")
+	for i, l := range lits {
+		okSrc := false
+		if ex, ok := strip(l.fields["Path"]).(*ssa.Extract); ok && ex.Index == 0 {
+			if c, ok := ex.Tuple.(*ssa.Call); ok && staticCallee(c) == wp && wp != nil {
+				okSrc = true
+			}
+		}
+		r.Check(okSrc, rule, fmt.Sprintf("%s:op#%d:%s:pointer-from-writePointer", fnName(fn), i+1, l.op), w.Pos(l.alloc.Pos()),
+			"the op's pointer is the output of writePointer on a path",
+			"the op's pointer is "+valueName(strip(l.fields["Path"]))+", not the output of writePointer: pointers assembled by string manipulation bypass escaping and the refusal rules")
+	}
 	nRemove := 0
 	for _, l := range lits {
 		key := fmt.Sprintf("%s:op:%s", fnName(fn), l.op)
